@@ -4,6 +4,7 @@ import MoneroModel.Proofs.BlockSound
 import MoneroModel.Props.C06
 import MoneroModel.Props.C16
 import MoneroModel.Props.C14
+import MoneroModel.Proofs.PanicsProofs
 open Monero Ledger
 /-! # C04 — no input can panic, hang or exhaust memory (PARTIAL: see below)
 
@@ -14,6 +15,10 @@ allocation ledger: decoders annotated with the heap they allocate (`with_capacit
 alive while later ones are read) stay within `A + B·(bytes looked at)`, the bound being closed under sequencing,
 repetition and capped vectors, and instantiated on the worst nesting of the transaction decoder (`Vec<TxIn>` containing
 `Vec<VarInt>`) with decoders proved to compute the same values as the model decoders.
+(4) the data-dependent panic sites of the address byte parser, the amount text parser, the padding loop, the VarInt
+accumulation and the ring-size computation are made EXPLICIT (Model/Panics.lean: every slice, index, `str` slice and
+machine-integer `+`/`-` returns `panic site` when its precondition fails) and proved unreachable for every input, the
+panic-explicit functions being proved equal to the total models that the correspondence check ties to the code.
 What a theorem about the model cannot exhibit — panics inside dependencies, stack exhaustion, allocator / OS behaviour,
 real time — is observed by the isolated runs of the harness (child process, catch_unwind, time limit, counting allocator). -/
 namespace C04
@@ -113,6 +118,64 @@ theorem C04_alloc_released (b : Bytes) :
 /-- nothing stays allocated after a failed decode -/
 theorem C04_alloc_released_on_error (b : Bytes) (h : (rvecTxIn b).val = none) : (rvecTxIn b).live = 0 :=
   bounded_rvecTxIn.live_fail b h
+
+/-! ## Explicit panic sites (Model/Panics.lean) are unreachable -/
+open Monero.Panics in
+/-- `Address::from_bytes` / `AddressType::from_slice`: none of the eleven index and slice expressions (`bytes[0]`,
+`&bytes[1..33]`, `&bytes[33..65]`, `&bytes[65..73]`, `&bytes[0..65]`, `&bytes[65..69]`, `&bytes[0..73]`, `&bytes[73..77]`,
+`&verify_checksum[0..4]`) can be out of bounds, for any blob, hash function with at least 4 output bytes and key
+predicate; the bounds of the payment-id slice come from the table regenerated from the source. The panic-explicit parser
+returns exactly what the C12 model returns. -/
+theorem C04_no_panic_address (H : Bytes → Bytes) (vk : Bytes → Bool) (hH : ∀ x, 4 ≤ (H x).length) (bytes : Bytes) :
+    (fromBytesP H vk bytes).isPanic = false ∧ (fromBytesP H vk bytes).toOption = Address.fromBytes H vk bytes := by
+  refine ⟨fromBytesP_no_panic H vk hH bytes, ?_⟩
+  rw [fromBytesP_eq H vk hH]; cases Address.fromBytes H vk bytes <;> rfl
+open Monero.Panics in
+theorem C04_no_panic_address_type (net : Net) (bytes : Bytes) :
+    (addrTypeOfP net bytes).isPanic = false ∧ (addrTypeOfP net bytes).toOption = addrTypeOf net bytes := by
+  refine ⟨addrTypeOfP_no_panic net bytes, ?_⟩
+  rw [addrTypeOfP_eq]; cases addrTypeOf net bytes <;> rfl
+
+open Monero.Panics in
+/-- `parse_signed_to_piconero` on any `&str` (any byte string that is a sequence of UTF-8 characters): `&s[1..]` and
+`&s[0..s.len() - last_n]` are in range and on character boundaries, `s.len() - last_n` does not underflow, and the `i32`
+/ `u8` arithmetic (`-precision`, `c as u8 - b'0'`, `d + 1`, `max_decimals - decimals`) stays in range; the result is the
+C15 model's. -/
+theorem C04_no_panic_amount_parser (s : Bytes) (d : Denom) (hu : Utf8 s) :
+    (parseSignedToPiconeroP s d).isPanic = false ∧
+    (parseSignedToPiconeroP s d).toOption = Out.ofExcept (AmtText.parseSignedToPiconero s d) := by
+  refine ⟨parseSignedToPiconeroP_no_panic s d hu, ?_⟩
+  rw [parseSignedToPiconeroP_eq s d hu]; cases AmtText.parseSignedToPiconero s d <;> rfl
+
+open Monero.Panics in
+/-- the `u8` counter `i += 1` of the padding loop never overflows (at most 255 iterations from 0), and the loop computes
+what the C16 model computes -/
+theorem C04_no_panic_padding (b : Bytes) :
+    padLoopP 255 0 b = liftRd (Extra.padLoop 255 0 b) ∧ ∀ o r, padLoopP 255 0 b = (some o, r) → o.isPanic = false :=
+  ⟨padLoopP_eq 255 0 b (by omega), padLoopP_no_panic b⟩
+
+open Monero.Panics in
+/-- `VarInt::consensus_decode`: `res.split_last().unwrap()` finds a group and `int << 7` never shifts a set bit out,
+on every input on which the group loop ends; the value is the C14 model's -/
+theorem C04_no_panic_varint (b : Bytes) (gs : List Nat) (r : Bytes) (h : collect b [] = some (gs, r)) :
+    (accumP gs.reverse 0).isPanic = false ∧ (accumP gs.reverse 0).toOption = accum gs.reverse 0 := by
+  rw [varint_accum_no_panic b gs r h]; cases accum gs.reverse 0 <;> exact ⟨rfl, rfl⟩
+
+open Monero.Panics in
+/-- `&prefix.inputs[0]` in `Transaction::consensus_decode` is only evaluated on a non-empty input list, and the ring
+size `len - 1` is taken with `checked_sub` (zero ring members is an error, not an underflow) -/
+theorem C04_no_panic_ring_size (ins : List TxIn) :
+    (mixinP ins).isPanic = false ∧
+    mixinP ins = (match ins.head? with
+      | some (.toKey _ o _) => if o.length = 0 then .err else .ok (o.length - 1)
+      | _ => .ok 0) := ⟨mixinP_no_panic ins, mixinP_eq ins⟩
+
+/- non-vacuity: the panic-explicit vocabulary CAN panic (an unguarded slice does), the hash hypothesis is satisfiable,
+and "-1.5" is a `&str` in the sense of `Utf8` -/
+example : (Panics.slice "unguarded" [1, 2] 0 3).isPanic = true := by decide
+example : ∀ x : Bytes, 4 ≤ ((fun _ => List.replicate 32 (0 : UInt8)) x).length := by intro _; simp
+example : Panics.Utf8 [0x2d, 0x31, 0x2e, 0x35] :=
+  .ascii _ _ (by decide) (.ascii _ _ (by decide) (.ascii _ _ (by decide) (.ascii _ _ (by decide) .nil)))
 
 /- non-vacuity: the cap check really fires in the model (a declared length beyond the cap is refused before any element) -/
 example (r : Bytes) : sizedVec sizes.key key (CAP + 1) r = none := by
